@@ -317,6 +317,15 @@ def exhaustive(tier):
       ('dict-value', '{{1: {E}}}'), ('match-guard', 'match v1:\n  case _ if {E}:\n    pass'),
       ('assert-msg', 'assert True, {E}'), ('return-value', 'def h():\n  return {E}'),
       ('class-base', 'class H(ident({E}) or object):\n  pass'), ('annotation', 'def h(a: {E} = 0):\n  pass'),
+      # the remaining expression-valued fields of the ast node classes
+      ('attr-value', '({E}).__class__'), ('subscript-value', '(({E}), 1)[0]'), ('tuple-elt', '({E}, 1)'),
+      ('list-elt', '[{E}]'), ('set-elt', '{{{E}}}'), ('dict-key', '{{{E}: 1}}'), ('boolop', '({E} or 1)'),
+      ('unaryop', '(not {E})'), ('compare', '(1 == {E})'), ('binop', '([{E}] + [])'),
+      ('yield-value', 'def h():\n  yield {E}'), ('dictcomp-value', '{{1: {E} for _c in (1,)}}'),
+      ('setcomp-elt', '{{{E} for _c in (1,)}}'), ('genexp-elt', '[*({E} for _c in (1,))]'),
+      ('slice-lower', '(1, 2)[{E}:]'), ('starred', '[*({E},)]'), ('comp-iter', '[1 for _c in ({E},)]'),
+      ('with-item', 'with (({E}) and nullctx) or nullctx:\n  pass'), ('attr-of-attr', '({E}).__class__.__name__'),
+      ('assign-value', 'v1 = {E}'), ('return-attr', 'def h():\n  return ({E}).__class__'),
   ]
 
   def ind(text, n):
@@ -335,7 +344,7 @@ def exhaustive(tier):
       src = 'box.touched\n' + h.replace('{S1}', ind(c_stmt, 1)).replace('{S2}', ind(c_stmt, 2)).replace(
           '{S}', c_stmt).replace('{E}', c).replace('{{', '{').replace('}}', '}') + '\n'
       try:
-        ast.parse(src)
+        compile(src, '<c19>', 'exec')     # (also rejects what only the compiler refuses, e.g. a walrus in a comprehension iterable)
       except SyntaxError:
         continue
       step = 1 if tier == 'thorough' else 1
@@ -460,8 +469,10 @@ def execute(case):
       return 'fn'
     if isinstance(x, (list, tuple)):
       return [norm(y) for y in x]
+    if isinstance(x, (set, frozenset)):
+      return sorted(repr(norm(y)) for y in x)
     if isinstance(x, dict):
-      return {k: norm(y) for k, y in x.items()}
+      return sorted((repr(norm(k)), repr(norm(y))) for k, y in x.items())
     if isinstance(x, str) and ' at 0x' in x:
       return 'fn-repr'
     return x
